@@ -45,7 +45,7 @@ def handle (req : Json) : Except String Json := do
   match op with
   | "run" =>
     let s := schemaOf (← req.getObjVal? "schema")
-    let repaired := getBoolD req "repaired" false
+    let repaired := getBoolD req "repaired" true
     let reqs ← (getArrD req "reqs").toList.mapM reqOf
     let ru := jsonRules s
     let tr := mechTrace repaired ru (C04.cfgOf s) (init false) reqs
